@@ -441,6 +441,8 @@ def prepare(prop, meta, need_binary):
             build_repo_binary()
         tr = translate()
         tables()
+        if "pre" in meta:
+            meta["pre"](prop)
         lake_build([meta["module"], "bwmodel"])
         obligations = audit(prop, meta["module"])
     return tr, obligations
